@@ -425,10 +425,9 @@ def resolve(world, op):
         cd, dflat = wsel_ids(ds, op["dw"])
         # pairwise distinct device positions (the property's quantifier); for Fluent troughs the column decides
         seen, keep = set(), []
+        distinct_on = op.get("distinct_on") or world.device
         for w in dflat:
-            key = w[1:] if (ds["kind"] == "trough" and world.device == "fluent") else w
-            if ds["kind"] == "trough" and world.device != "fluent":
-                key = w
+            key = w[1:] if (ds["kind"] == "trough" and distinct_on == "fluent") else w
             if key not in seen:
                 seen.add(key)
                 keep.append(w)
